@@ -12,7 +12,104 @@
 
 use crate::{catch, Cfg, Hasher, Json, Report, Rng};
 use re::math::vec::vec2;
-use re::util::buf::{Buf2, MutSlice2, Slice2};
+use re::util::buf::{AsMutSlice2, AsSlice2, Buf2, MutSlice2, Slice2};
+use std::ops::Bound;
+
+macro_rules! exec_op {
+    ($v:ident, $opc:expr, $id0:expr, $srck:expr) => {{
+        let id0: u64 = $id0;
+        match $opc {
+            Op::Get(x, y) => Obs::Val($v.get([x, y]).copied()),
+            Op::GetMut(x, y) => Obs::Val($v.get_mut([x, y]).map(|c| {
+                *c = id0;
+                id0
+            })),
+            Op::IndexPt(x, y) => Obs::Val(Some($v[[x, y]])),
+            Op::IndexPtMut(x, y) => {
+                $v[[x, y]] = id0;
+                Obs::Unit
+            }
+            Op::IndexRow(y) => Obs::Row($v[y].to_vec()),
+            Op::IndexRowMutWrite(y, x) => {
+                let row = &mut $v[y];
+                let n = row.len() as u32;
+                if x < n {
+                    row[x as usize] = id0;
+                }
+                Obs::Dims(n, 0, false)
+            }
+            Op::Rows => Obs::Rows($v.rows().map(|r| r.to_vec()).collect()),
+            Op::RowsMutWrite => {
+                let mut k = 0;
+                let mut shape = vec![];
+                for r in $v.rows_mut() {
+                    shape.push(vec![r.len() as u64]);
+                    for c in r.iter_mut() {
+                        *c = id0 + k;
+                        k += 1;
+                    }
+                }
+                Obs::Rows(shape)
+            }
+            Op::Iter => Obs::Flat($v.iter().copied().collect()),
+            Op::IterMutWrite => {
+                let mut k = 0;
+                for c in $v.iter_mut() {
+                    *c = id0 + k;
+                    k += 1;
+                }
+                Obs::Val(Some(k))
+            }
+            Op::Fill => {
+                $v.fill(id0);
+                Obs::Unit
+            }
+            Op::FillWith => {
+                let w = $v.width() as u64;
+                $v.fill_with(|x, y| id0 + y as u64 * w.max(1) + x as u64);
+                Obs::Unit
+            }
+            Op::CopyFrom { dw, dh } => {
+                let (w, h) = $v.dims();
+                let (sw, sh) = ((w as i64 + dw as i64).max(0) as u32, (h as i64 + dh as i64).max(0) as u32);
+                // source value at (x, y) is always id0 + y*(sw+2) + x + 1;
+                // the kind of source object rotates
+                let val = |x: u32, y: u32| id0 + (y * (sw + 2) + x + 1) as u64;
+                match $srck % 5 {
+                    0 => {
+                        // a strided window of another buffer
+                        let src = Buf2::new_with((sw + 2, sh + 1), |x, y| id0 + (y * (sw + 2) + x) as u64);
+                        $v.copy_from(src.slice((1..1 + sw, 0..sh)));
+                    }
+                    1 => {
+                        // an owned, contiguous buffer by value
+                        let src = Buf2::new_with((sw, sh), val);
+                        $v.copy_from(src);
+                    }
+                    2 => {
+                        // a reference to an owned buffer
+                        let src = Buf2::new_with((sw, sh), val);
+                        $v.copy_from(&src);
+                    }
+                    3 => {
+                        // a mutable view of another buffer
+                        let mut src = Buf2::new_with((sw + 1, sh + 2), |x, y| if y == 0 { 7 } else { val(x, y - 1) });
+                        $v.copy_from(src.slice_mut((0..sw, 1..1 + sh)));
+                    }
+                    _ => {
+                        // Slice2::new over data with a large stride and surplus tail
+                        let stride = sw + 5;
+                        let len = if sw == 0 || sh == 0 { 3 } else { (sh - 1) * stride + sw + 3 } as usize;
+                        let data: Vec<u64> = (0..len as u32).map(|i| if stride > 0 && i % stride < sw { val(i % stride, i / stride) } else { 9 }).collect();
+                        $v.copy_from(Slice2::new((sw, sh), stride, &data[..]));
+                    }
+                }
+                Obs::Unit
+            }
+            Op::Dims => Obs::Shape($v.width(), $v.height(), $v.is_empty(), $v.stride(), $v.is_contiguous()),
+        }
+    }};
+}
 
 /// The ways a rectangle can be spelled at a slicing call.
 #[derive(Clone, Copy, Debug, PartialEq)]
@@ -34,6 +131,18 @@ pub enum Form {
     /// (l..r, ..) and (.., t..b)
     HOnly(u32, u32),
     VOnly(u32, u32),
+    /// (..=r-1, ..=b-1); only for non-empty extents
+    ToIncl(u32, u32),
+    /// (l..=r-1, t..b) and (l..r, t..=b-1): one axis inclusive
+    MixIE(u32, u32, u32, u32),
+    MixEI(u32, u32, u32, u32),
+    /// (l.., ..b) and (..r, t..)
+    FromTo(u32, u32),
+    ToFrom(u32, u32),
+    /// ((Excluded(l-1), Excluded(r)), (Excluded(t-1), Included(b-1))):
+    /// explicit Bound pairs with an *excluded start*; fields are the bound
+    /// values as written
+    Bounds(u32, u32, u32, u32),
 }
 
 impl Form {
@@ -48,6 +157,19 @@ impl Form {
             Form::FullPair | Form::Full => (0, 0, w as u64, h as u64),
             Form::HOnly(l, r) => (l as u64, 0, r as u64, h as u64),
             Form::VOnly(t, b) => (0, t as u64, w as u64, b as u64),
+            Form::ToIncl(r, b) => (0, 0, r as u64 + 1, b as u64 + 1),
+            Form::MixIE(l, t, r, b) => (l as u64, t as u64, r as u64 + 1, b as u64),
+            Form::MixEI(l, t, r, b) => (l as u64, t as u64, r as u64, b as u64 + 1),
+            Form::FromTo(l, b) => (l as u64, 0, w as u64, b as u64),
+            Form::ToFrom(r, t) => (0, t as u64, r as u64, h as u64),
+            // excluded starts: left = xl + 1, top = xt + 1; a start of
+            // u32::MAX cannot be resolved (must panic)
+            Form::Bounds(xl, xt, r, bi) => {
+                if xl == u32::MAX || xt == u32::MAX {
+                    return None;
+                }
+                (xl as u64 + 1, xt as u64 + 1, r as u64, bi as u64 + 1)
+            }
         })
     }
     /// In-bounds by the rule "left ≤ right ≤ width and top ≤ bottom ≤
@@ -73,6 +195,52 @@ fn slice_mut_form<'a>(v: &'a mut MutSlice2<u64>, f: Form) -> MutSlice2<'a, u64> 
         Form::Vecs(l, t, r, b) => v.slice_mut(vec2(l, t)..vec2(r, b)),
         Form::HOnly(l, r) => v.slice_mut((l..r, ..)),
         Form::VOnly(t, b) => v.slice_mut((.., t..b)),
+        Form::ToIncl(r, b) => v.slice_mut((..=r, ..=b)),
+        Form::MixIE(l, t, r, b) => v.slice_mut((l..=r, t..b)),
+        Form::MixEI(l, t, r, b) => v.slice_mut((l..r, t..=b)),
+        Form::FromTo(l, b) => v.slice_mut((l.., ..b)),
+        Form::ToFrom(r, t) => v.slice_mut((..r, t..)),
+        Form::Bounds(xl, xt, r, bi) => v.slice_mut(((Bound::Excluded(xl), Bound::Excluded(r)), (Bound::Excluded(xt), Bound::Included(bi)))),
+    }
+}
+
+fn slice_mut_form_buf(v: &mut Buf2<u64>, f: Form) -> MutSlice2<'_, u64> {
+    match f {
+        Form::Excl(l, t, r, b) => v.slice_mut((l..r, t..b)),
+        Form::Incl(l, t, r, b) => v.slice_mut((l..=r, t..=b)),
+        Form::To(r, b) => v.slice_mut((..r, ..b)),
+        Form::From(l, t) => v.slice_mut((l.., t..)),
+        Form::FullPair => v.slice_mut((.., ..)),
+        Form::Full => v.slice_mut(..),
+        Form::Vecs(l, t, r, b) => v.slice_mut(vec2(l, t)..vec2(r, b)),
+        Form::HOnly(l, r) => v.slice_mut((l..r, ..)),
+        Form::VOnly(t, b) => v.slice_mut((.., t..b)),
+        Form::ToIncl(r, b) => v.slice_mut((..=r, ..=b)),
+        Form::MixIE(l, t, r, b) => v.slice_mut((l..=r, t..b)),
+        Form::MixEI(l, t, r, b) => v.slice_mut((l..r, t..=b)),
+        Form::FromTo(l, b) => v.slice_mut((l.., ..b)),
+        Form::ToFrom(r, t) => v.slice_mut((..r, t..)),
+        Form::Bounds(xl, xt, r, bi) => v.slice_mut(((Bound::Excluded(xl), Bound::Excluded(r)), (Bound::Excluded(xt), Bound::Included(bi)))),
+    }
+}
+
+fn form_kind(f: &Form) -> &'static str {
+    match f {
+        Form::Excl(..) => "Excl",
+        Form::Incl(..) => "Incl",
+        Form::To(..) => "To",
+        Form::From(..) => "From",
+        Form::FullPair => "FullPair",
+        Form::Full => "Full",
+        Form::Vecs(..) => "Vecs",
+        Form::HOnly(..) => "HOnly",
+        Form::VOnly(..) => "VOnly",
+        Form::ToIncl(..) => "ToIncl",
+        Form::MixIE(..) => "MixIE",
+        Form::MixEI(..) => "MixEI",
+        Form::FromTo(..) => "FromTo",
+        Form::ToFrom(..) => "ToFrom",
+        Form::Bounds(..) => "Bounds(excluded start)",
     }
 }
 #[derive(Clone, Debug)]
@@ -108,6 +276,8 @@ pub enum Obs {
     Rows(Vec<Vec<u64>>),
     Flat(Vec<u64>),
     Dims(u32, u32, bool),
+    /// width, height, is_empty, stride, is_contiguous
+    Shape(u32, u32, bool, u32, bool),
     Unit,
 }
 
@@ -142,8 +312,10 @@ impl Store {
 }
 
 /// Walks `path` with slice_mut from the root and applies `f` to the final
-/// view. Everything happens inside `catch`.
-fn with_mut<R>(st: &mut Store, path: &[Form], f: &mut dyn FnMut(&mut MutSlice2<u64>) -> R) -> Result<R, String> {
+/// view. Everything happens inside `catch`. With `direct`, an owned root is
+/// used as the receiver itself (`fb` for an empty path, Buf2::slice_mut for the
+/// first hop); otherwise it is first borrowed with as_mut_slice2().
+fn with_mut<R>(st: &mut Store, path: &[Form], direct: bool, f: &mut dyn FnMut(&mut MutSlice2<u64>) -> R, fb: &mut dyn FnMut(&mut Buf2<u64>) -> R) -> Result<R, String> {
     fn rec<R>(v: &mut MutSlice2<u64>, path: &[Form], f: &mut dyn FnMut(&mut MutSlice2<u64>) -> R) -> R {
         match path.split_first() {
             None => f(v),
@@ -155,8 +327,16 @@ fn with_mut<R>(st: &mut Store, path: &[Form], f: &mut dyn FnMut(&mut MutSlice2<u
     }
     let root = st.root.clone();
     catch(move || match (&mut st.owned, root) {
+        (Some(b), _) if direct => match path.split_first() {
+            None => fb(b),
+            Some((p, rest)) => {
+                let mut s = slice_mut_form_buf(b, *p);
+                rec(&mut s, rest, f)
+            }
+        },
         (Some(b), _) => {
-            let mut v = b.as_mut_slice2();
+            // alternate between the inherent method and the trait on &mut Buf2
+            let mut v = if path.len() % 2 == 0 { b.as_mut_slice2() } else { AsMutSlice2::as_mut_slice2(b) };
             rec(&mut v, path, f)
         }
         (None, Root::Direct { w, h, stride, .. }) => {
@@ -183,6 +363,12 @@ fn with_ro<R>(st: &Store, path: &[Form], f: &mut dyn FnMut(&Slice2<u64>) -> R) -
                     Form::Vecs(l, t, r, b) => v.slice(vec2(l, t)..vec2(r, b)),
                     Form::HOnly(l, r) => v.slice((l..r, ..)),
                     Form::VOnly(t, b) => v.slice((.., t..b)),
+                    Form::ToIncl(r, b) => v.slice((..=r, ..=b)),
+                    Form::MixIE(l, t, r, b) => v.slice((l..=r, t..b)),
+                    Form::MixEI(l, t, r, b) => v.slice((l..r, t..=b)),
+                    Form::FromTo(l, b) => v.slice((l.., ..b)),
+                    Form::ToFrom(r, t) => v.slice((..r, t..)),
+                    Form::Bounds(xl, xt, r, bi) => v.slice(((Bound::Excluded(xl), Bound::Excluded(r)), (Bound::Excluded(xt), Bound::Included(bi)))),
                 };
                 rec(&s, rest, f)
             }
@@ -226,6 +412,7 @@ pub struct Hist {
     st: Store,
     model: Vec<u64>,
     next_id: u64,
+    steps: u64,
 }
 
 fn jcase(root: &Root, path: &[Form], op: &Op) -> Json {
@@ -234,9 +421,19 @@ fn jcase(root: &Root, path: &[Form], op: &Op) -> Json {
 
 impl Hist {
     pub fn new(root: Root) -> Result<Self, String> {
-        let st = Store::new(root)?;
-        let model = st.data().to_vec();
-        Ok(Hist { st, model, next_id: 1 })
+        let st = Store::new(root.clone())?;
+        // the model is initialised independently of the library: new_with
+        // must have called its function with (x, y) in row-major order
+        let model: Vec<u64> = match root {
+            Root::Owned { w, h } => (0..h as u64).flat_map(|y| (0..w as u64).map(move |x| 1_000_000 + y * w as u64 + x)).collect(),
+            Root::Direct { len, .. } => (0..len as u64).map(|i| 2_000_000 + i).collect(),
+        };
+        let mut hist = Hist { st, model, next_id: 1, steps: 0 };
+        if hist.st.data() != &hist.model[..] {
+            return Err(format!("initial contents differ from f(x, y) in row-major order: {:?}…", &hist.st.data()[..hist.st.data().len().min(6)]));
+        }
+        hist.steps = 0;
+        Ok(hist)
     }
 
     /// Executes one operation through the mutable path (and, for reads, the
@@ -248,71 +445,35 @@ impl Hist {
         let id0 = self.next_id;
         self.next_id += 1024;
         let opc = op.clone();
-        let mut exec = |v: &mut MutSlice2<u64>| -> Obs {
-            match opc {
-                Op::Get(x, y) => Obs::Val(v.get([x, y]).copied()),
-                Op::GetMut(x, y) => Obs::Val(v.get_mut([x, y]).map(|c| {
-                    *c = id0;
-                    id0
-                })),
-                Op::IndexPt(x, y) => Obs::Val(Some(v[[x, y]])),
-                Op::IndexPtMut(x, y) => {
-                    v[[x, y]] = id0;
-                    Obs::Unit
-                }
-                Op::IndexRow(y) => Obs::Row(v[y].to_vec()),
-                Op::IndexRowMutWrite(y, x) => {
-                    let row = &mut v[y];
-                    let n = row.len() as u32;
-                    if x < n {
-                        row[x as usize] = id0;
-                    }
-                    Obs::Dims(n, 0, false)
-                }
-                Op::Rows => Obs::Rows(v.rows().map(|r| r.to_vec()).collect()),
-                Op::RowsMutWrite => {
-                    let mut k = 0;
-                    let mut shape = vec![];
-                    for r in v.rows_mut() {
-                        shape.push(vec![r.len() as u64]);
-                        for c in r.iter_mut() {
-                            *c = id0 + k;
-                            k += 1;
-                        }
-                    }
-                    Obs::Rows(shape)
-                }
-                Op::Iter => Obs::Flat(v.iter().copied().collect()),
-                Op::IterMutWrite => {
-                    let mut k = 0;
-                    for c in v.iter_mut() {
-                        *c = id0 + k;
-                        k += 1;
-                    }
-                    Obs::Val(Some(k))
-                }
-                Op::Fill => {
-                    v.fill(id0);
-                    Obs::Unit
-                }
-                Op::FillWith => {
-                    let w = v.width() as u64;
-                    v.fill_with(|x, y| id0 + y as u64 * w.max(1) + x as u64);
-                    Obs::Unit
-                }
-                Op::CopyFrom { dw, dh } => {
-                    let (w, h) = v.dims();
-                    let (sw, sh) = ((w as i64 + dw as i64).max(0) as u32, (h as i64 + dh as i64).max(0) as u32);
-                    // source: a strided window of another buffer
-                    let src = Buf2::new_with((sw + 2, sh + 1), |x, y| id0 + (y * (sw + 2) + x) as u64);
-                    v.copy_from(src.slice((1..1 + sw, 0..sh)));
-                    Obs::Unit
-                }
-                Op::Dims => Obs::Dims(v.width(), v.height(), v.is_empty()),
-            }
-        };
-        let got = with_mut(&mut self.st, path, &mut exec);
+        let srck = self.steps;
+        let mut exec = |v: &mut MutSlice2<u64>| -> Obs { exec_op!(v, opc.clone(), id0, srck) };
+        // Owned roots: every other step operates on the Buf2 itself (empty
+        // path) or takes the first hop with Buf2::slice_mut, instead of going
+        // through as_mut_slice2() first
+        let direct = self.steps % 2 == 1;
+        self.steps += 1;
+        let opc2 = op.clone();
+        let mut exec_buf = |b: &mut Buf2<u64>| -> Obs { exec_op!(b, opc2.clone(), id0, srck) };
+        let got = with_mut(&mut self.st, path, direct, &mut exec, &mut exec_buf);
         rep.count(&format!("op.{}", op_name(op)));
+        rep.count(&format!("path.depth_{}", path.len()));
+        for f in path {
+            rep.count(&format!("form.{}", form_kind(f)));
+        }
+        if direct && matches!(root, Root::Owned { .. }) {
+            rep.count(if path.is_empty() { "receiver.Buf2_itself" } else { "receiver.Buf2::slice_mut_first_hop" });
+        }
+        if let Some(vm) = &vm {
+            if !path.is_empty() && (vm.w == 0 || vm.h == 0) {
+                rep.count("view.zero_width_or_height(derived)");
+            }
+            if matches!(root, Root::Direct { .. }) && !path.is_empty() {
+                rep.count("view.nested_slice_of_direct_root");
+            }
+        }
+        if let Op::CopyFrom { dw, dh } = op {
+            rep.count(if *dw == 0 && *dh == 0 { "copy_from.matching_dims" } else { "copy_from.mismatching_dims" });
+        }
 
         // ---- expectation
         let fail = |rep: &mut Report, sig: &str, msg: String| {
@@ -321,6 +482,11 @@ impl Hist {
         };
         let Some(vm) = vm else {
             rep.count("expected_panics.slice_out_of_bounds");
+            // the immutable slicing path must reject it as well
+            let ro = with_ro(&self.st, path, &mut |v: &Slice2<u64>| v.dims());
+            if let Ok(d) = ro {
+                return fail(rep, "buf.oob_slice_accepted", format!("slice() (immutable) outside the view's bounds did not panic (dims {d:?})"));
+            }
             return match got {
                 Err(_) => self.store_check(rep, &root, path, op),
                 Ok(o) => fail(rep, "buf.oob_slice_accepted", format!("slicing outside the view's bounds did not panic (result {o:?})")),
@@ -415,7 +581,11 @@ impl Hist {
                     Some(Obs::Unit)
                 }
             }
-            Op::Dims => Some(Obs::Dims(w, h, w == 0 || h == 0)),
+            Op::Dims => {
+                let (_, _, stride) = self.st.root_dims();
+                // documented: contiguous iff width == stride, height ≤ 1, or empty
+                Some(Obs::Shape(w, h, w == 0 || h == 0, stride, stride == w || h <= 1 || w == 0))
+            }
         };
         if unjudged {
             rep.count("unjudged.row_index_on_zero_width_view");
@@ -464,9 +634,10 @@ impl Hist {
                 Op::IndexRow(y) => Obs::Row(v[y].to_vec()),
                 Op::Rows => Obs::Rows(v.rows().map(|r| r.to_vec()).collect()),
                 Op::Iter => Obs::Flat(v.iter().copied().collect()),
-                _ => Obs::Dims(v.width(), v.height(), v.is_empty()),
+                _ => Obs::Shape(v.width(), v.height(), v.is_empty(), v.stride(), v.is_contiguous()),
             });
             let same = match (&got, &got_ro) {
+                (Ok(_), Ok(Obs::Rows(rows))) if zero_w_rows => rows.len() <= h as usize && rows.iter().all(|r| r.is_empty()),
                 (Ok(a), Ok(b)) => a == b,
                 (Err(_), Err(_)) => true,
                 _ => false,
@@ -572,6 +743,24 @@ fn spell(l: u32, t: u32, r: u32, b: u32, w: u32, h: u32, k: u64) -> Form {
     if l == 0 && r == w {
         opts.push(Form::VOnly(t, b));
     }
+    if l == 0 && t == 0 && r > 0 && b > 0 {
+        opts.push(Form::ToIncl(r - 1, b - 1));
+    }
+    if r > l {
+        opts.push(Form::MixIE(l, t, r - 1, b));
+    }
+    if b > t {
+        opts.push(Form::MixEI(l, t, r, b - 1));
+    }
+    if r == w && t == 0 {
+        opts.push(Form::FromTo(l, b));
+    }
+    if l == 0 && b == h {
+        opts.push(Form::ToFrom(r, t));
+    }
+    if l >= 1 && t >= 1 && b > t {
+        opts.push(Form::Bounds(l - 1, t - 1, r, b - 1));
+    }
     opts[(k % opts.len() as u64) as usize]
 }
 
@@ -614,14 +803,62 @@ fn exhaustive_small(rep: &mut Report, w: u32, h: u32, r1: usize, rng: &mut Rng) 
         }
     }
     // out-of-bounds and reversed slicings must panic
-    for bad in [Form::Excl(0, 0, w1 + 1, h1), Form::Excl(0, 0, w1, h1 + 1), Form::Excl(w1 + 1, 0, w1 + 1, h1), Form::Incl(0, 0, w1, h1.saturating_sub(1)), Form::To(w1 + 1, h1), Form::From(w1 + 1, 0), Form::Vecs(0, 0, w1, h1 + 1), Form::Incl(0, 0, u32::MAX, 0)] {
-        if !hist.step(rep, &[p1, bad], &Op::Dims) {
-            return;
+    let mut bads = vec![
+        Form::Excl(0, 0, w1 + 1, h1),
+        Form::Excl(0, 0, w1, h1 + 1),
+        Form::Excl(w1 + 1, 0, w1 + 1, h1),
+        Form::Excl(0, h1 + 1, w1, h1 + 1),
+        Form::Incl(0, 0, w1, h1.saturating_sub(1)),
+        Form::Incl(0, 0, w1.saturating_sub(1), h1),
+        Form::To(w1 + 1, h1),
+        Form::To(w1, h1 + 1),
+        Form::From(w1 + 1, 0),
+        Form::From(0, h1 + 1),
+        Form::Vecs(0, 0, w1, h1 + 1),
+        Form::Vecs(0, 0, w1 + 1, h1),
+        Form::Incl(0, 0, u32::MAX, 0),
+        Form::Incl(0, 0, 0, u32::MAX),
+        Form::HOnly(0, w1 + 1),
+        Form::VOnly(0, h1 + 1),
+        Form::ToIncl(w1, h1.saturating_sub(1)),
+        Form::ToIncl(w1.saturating_sub(1), h1),
+        Form::MixIE(0, 0, w1, h1),
+        Form::MixEI(0, 0, w1, h1),
+        Form::FromTo(w1 + 1, h1),
+        Form::FromTo(0, h1 + 1),
+        Form::ToFrom(w1 + 1, 0),
+        Form::ToFrom(w1, h1 + 1),
+        // excluded start at u32::MAX cannot be resolved
+        Form::Bounds(u32::MAX, 0, w1, 0),
+        Form::Bounds(0, u32::MAX, w1, 0),
+        // excluded start w1 means left = w1 + 1 > right
+        Form::Bounds(w1, 0, w1, h1),
+        // out of bounds with a non-zero origin
+        Form::Excl(1, 1, w1 + 1, h1.max(1)),
+        Form::Excl(1, 1, w1.max(1), h1 + 1),
+    ];
+    #[allow(clippy::reversed_empty_ranges)]
+    {
+        if w1 >= 1 {
+            bads.push(Form::Excl(w1, 0, w1 - 1, h1));
+            bads.push(Form::Vecs(w1, 0, w1 - 1, h1));
+            bads.push(Form::HOnly(w1, w1 - 1));
+        }
+        if h1 >= 1 {
+            bads.push(Form::Excl(0, h1, w1, h1 - 1));
+            bads.push(Form::Vecs(0, h1, w1, h1 - 1));
+            bads.push(Form::VOnly(h1, h1 - 1));
+        }
+        if w1 >= 2 {
+            // reversed inclusive: 2..=0 resolves to left 2 > right 1
+            bads.push(Form::Incl(2, 0, 0, h1.saturating_sub(1)));
         }
     }
-    if w1 >= 1 {
-        #[allow(clippy::reversed_empty_ranges)]
-        if !hist.step(rep, &[p1, Form::Excl(w1, 0, w1 - 1, h1)], &Op::Dims) {
+    for bad in bads {
+        if bad.in_bounds(w1, h1).is_some() {
+            continue; // (a spelling that happens to be valid for this size)
+        }
+        if !hist.step(rep, &[p1, bad], &Op::Dims) {
             return;
         }
     }
@@ -630,12 +867,22 @@ fn exhaustive_small(rep: &mut Report, w: u32, h: u32, r1: usize, rng: &mut Rng) 
 fn gen_form(rng: &mut Rng, w: u32, h: u32) -> Form {
     if rng.chance(1, 12) {
         // out of bounds
-        return match rng.below(4) {
-            0 => Form::Excl(0, 0, w + 1 + rng.below(3) as u32, h),
-            1 => Form::Excl(0, 0, w, h + 1),
-            2 => Form::From(w + 1, 0),
-            _ => Form::Incl(0, 0, w, h),
+        let e = 1 + rng.below(3) as u32;
+        let f = match rng.below(12) {
+            0 => Form::Excl(0, 0, w + e, h),
+            1 => Form::Excl(0, 0, w, h + e),
+            2 => Form::From(w + e, 0),
+            3 => Form::From(0, h + e),
+            4 => Form::Incl(0, 0, w, h.saturating_sub(1)),
+            5 => Form::Incl(0, 0, w.saturating_sub(1), h),
+            6 => Form::Excl(w + e, 0, w + e, h),
+            7 => Form::Excl(0, h + e, w, h + e),
+            8 => Form::VOnly(0, h + e),
+            9 => Form::HOnly(0, w + e),
+            10 => Form::Vecs(rng.below(w as u64 + 1) as u32, 0, w + e, h),
+            _ => Form::Bounds(u32::MAX, 0, w, 0),
         };
+        return f;
     }
     let l = rng.below(w as u64 + 1) as u32;
     let r = l + rng.below((w - l) as u64 + 1) as u32;
@@ -761,6 +1008,82 @@ fn constructor_case(rng: &mut Rng, rep: &mut Report) {
             (Err(m), true) => rep.violation("buf.constructor_rejects_valid", format!("{name}(({w},{h}), {stride}, len {len}) panicked although the data holds the view (needs {need}): {m}"), cj()),
         }
     }
+    // Dimensions whose size arithmetic wraps in 32 bits must be rejected
+    // over small data, whatever the stride (no large allocation involved).
+    if rng.chance(1, 8) {
+        const BIG: [u32; 6] = [0xFFFF, 0x1_0000, 0x1_0001, 0x7FFF_FFFF, 0x8000_0000, u32::MAX];
+        let (bw, bh, bs) = match rng.below(4) {
+            0 => (rng.pick(&[1u32, 2, 3]), rng.pick(&BIG), rng.pick(&BIG)),
+            1 => (rng.pick(&BIG), rng.pick(&[2u32, 3, 5]), rng.pick(&BIG)),
+            2 => (rng.pick(&BIG), rng.pick(&BIG), u32::MAX),
+            _ => (2, 0x1_0001, 0x1_0000), // (h-1)*stride + w = 2^32 + 2
+        };
+        let need = (bh as u128 - 1) * bs as u128 + bw as u128;
+        if bw <= bs && need > len as u128 {
+            rep.count("constructor.must_reject_huge_dims");
+            let r = catch(|| Slice2::new((bw, bh), bs, &data[..]).dims());
+            let mut d3 = data.clone();
+            let r2 = catch(|| MutSlice2::new((bw, bh), bs, &mut d3[..]).dims());
+            for (r, name) in [(r, "Slice2::new"), (r2, "MutSlice2::new")] {
+                if r.is_ok() {
+                    rep.violation("buf.constructor_accepts_too_small_data", format!("{name}(({bw},{bh}), stride {bs}, len {len}) accepted although the view needs {need} elements"), Json::obj().set("dims", format!("({bw},{bh})")).set("stride", bs).set("data_len", len));
+                }
+            }
+        }
+        // w*h beyond isize must be refused before anything is allocated
+        let r = catch(|| Buf2::new_from((u32::MAX, u32::MAX), std::iter::repeat(0u8)).dims());
+        if cfg!(target_pointer_width = "64") {
+            // 2^64 - 2^33 + 1 > isize::MAX
+            if r.is_ok() {
+                rep.violation("buf.constructor_accepts_too_small_data", "Buf2::new_from((u32::MAX, u32::MAX), ..) returned".into(), Json::obj());
+            }
+        }
+    }
+    // contents: new_from takes the items in row-major order, new is all default
+    {
+        let b = catch(|| {
+            let b = Buf2::new_from((w, h), 100u64..);
+            (b.dims(), b.data().to_vec(), b.stride(), b.is_contiguous())
+        });
+        let n = (w * h) as u64;
+        match b {
+            Ok((d, v, st, cont)) => {
+                rep.count("constructor.contents_checked");
+                if d != (w, h) || st != w || !cont || v != (100..100 + n).collect::<Vec<u64>>() {
+                    rep.violation("buf.constructor_wrong_contents", format!("Buf2::new_from(({w},{h}), 100..): dims {d:?} stride {st} contiguous {cont}, data {:?}…", &v[..v.len().min(8)]), cj());
+                }
+            }
+            Err(m) => rep.violation("buf.constructor_rejects_valid", format!("Buf2::new_from(({w},{h}), 100..) panicked: {m}"), cj()),
+        }
+        let b = catch(|| {
+            let b: Buf2<u64> = Buf2::new((w, h));
+            (b.dims(), b.data().to_vec())
+        });
+        match b {
+            Ok((d, v)) => {
+                if d != (w, h) || v.len() as u64 != n || v.iter().any(|x| *x != 0) {
+                    rep.violation("buf.constructor_wrong_contents", format!("Buf2::new(({w},{h})): dims {d:?}, {} elements, all default: {}", v.len(), v.iter().all(|x| *x == 0)), cj());
+                }
+            }
+            Err(m) => rep.violation("buf.constructor_rejects_valid", format!("Buf2::new(({w},{h})) panicked: {m}"), cj()),
+        }
+        // data_mut writes through to what data() and the views see
+        let r = catch(|| {
+            let mut b = Buf2::new_with((w, h), |x, y| (y * w + x) as u64);
+            for c in b.data_mut().iter_mut() {
+                *c += 5;
+            }
+            let via_view: Vec<u64> = b.as_slice2().iter().copied().collect();
+            let via_trait: Vec<u64> = AsSlice2::as_slice2(&&b).iter().copied().collect();
+            (b.data().to_vec(), via_view, via_trait)
+        });
+        if let Ok((a, b, c)) = r {
+            let e: Vec<u64> = (5..5 + n).collect();
+            if a != e || b != e || c != e {
+                rep.violation("buf.constructor_wrong_contents", format!("new_with + data_mut: data {:?}… view {:?}…", &a[..a.len().min(6)], &b[..b.len().min(6)]), cj());
+            }
+        }
+    }
     // Buf2::new_from with too few / enough items
     let items = rng.below(40) as usize;
     let r3 = catch(|| Buf2::new_from((w, h), 0..items as u64).dims());
@@ -782,9 +1105,11 @@ fn pin_case(root: Root, path: &[Form], op: Op) -> Result<(), String> {
 }
 
 pub fn run(cfg: &Cfg, rep: &mut Report) {
-    rep.rule = "case = one history: a root (Buf2, or MutSlice2::new with stride ≥ width and surplus data) and a sequence of (slicing path, operation) steps; every step re-derives the view from the root through slice_mut (reads also through slice), and the whole backing store is compared with the model after every step; exhaustive part: all dims ≤ 4x4 incl. 0 × all first-level sub-rectangles × all second-level sub-rectangles × every operation incl. just-out-of-bounds arguments, range spellings rotated; random part: 20..120 steps on buffers ≤ 24x24, paths up to depth 3; distinct by hash of the history".into();
+    rep.rule = "case = one history: a root (Buf2, or MutSlice2::new with stride ≥ width and surplus data) and a sequence of (slicing path, operation) steps; every step re-derives the view from the root through slice_mut (reads also through slice; owned roots alternately as the receiver itself / Buf2::slice_mut for the first hop / as_mut_slice2 / the AsMutSlice2 trait), 15 range spellings incl. mixed inclusive/exclusive axes and explicit Bound pairs with an excluded start, copy_from sources of five kinds, and the whole backing store is compared with the model after every step; exhaustive part: all dims ≤ 4x4 incl. 0 × all first-level sub-rectangles × all second-level sub-rectangles × every operation incl. just-out-of-bounds arguments, range spellings rotated; random part: 20..120 steps on buffers ≤ 24x24, paths up to depth 3; distinct by hash of the history".into();
     rep.assumptions.push("row indexing view[y] on a zero-width view is neither required nor forbidden by the property: counted, not judged (only 'must not write' is asserted)".into());
     rep.assumptions.push("the harness uses no unsafe code; the store is compared between operations, when no view borrows it".into());
+    rep.assumptions.push("'constructors reject dimensions the data cannot hold' is read with the library's documented contract: width > stride is rejected for every height; a view of zero width or height needs no data at all".into());
+    rep.assumptions.push("buffers with more than 2^32 elements (where the library's 32-bit index arithmetic would wrap) are outside the quantifier ('buffers up to a small size') and are not driven".into());
 
     // pinned witnesses
     rep.pin("F2a.rows_surplus_backing", pin_case(Root::Direct { w: 2, h: 2, stride: 3, len: 7 }, &[], Op::Rows));
@@ -829,6 +1154,19 @@ pub fn run(cfg: &Cfg, rep: &mut Report) {
     rep.floor("root.MutSlice2::new(strided,surplus)", 10_000);
     rep.floor("root.zero_width_or_height", 2_000);
     rep.floor("reads_cross_checked_through_immutable_path", 100_000);
+    for f in ["Excl", "Incl", "To", "From", "FullPair", "Full", "Vecs", "HOnly", "VOnly", "ToIncl", "MixIE", "MixEI", "FromTo", "ToFrom", "Bounds(excluded start)"] {
+        rep.floor(&format!("form.{f}"), 5_000);
+    }
+    for d in 0..=3 {
+        rep.floor(&format!("path.depth_{d}"), 50_000);
+    }
+    rep.floor("receiver.Buf2_itself", 20_000);
+    rep.floor("receiver.Buf2::slice_mut_first_hop", 50_000);
+    rep.floor("view.zero_width_or_height(derived)", 50_000);
+    rep.floor("view.nested_slice_of_direct_root", 20_000);
+    rep.floor("copy_from.mismatching_dims", 5_000);
+    rep.floor("constructor.must_reject_huge_dims", 1_000);
+    rep.floor("constructor.contents_checked", 10_000);
     for op in ["get", "get_mut", "index_point", "index_point_mut", "index_row", "index_row_mut", "rows", "rows_mut", "iter", "iter_mut", "fill", "fill_with", "copy_from", "dims"] {
         rep.floor(&format!("op.{op}"), 20_000);
     }
